@@ -22,7 +22,8 @@ CONSTANTS
     MaxSteps,     \* length of step sequences explored
     Emit,         \* BOOLEAN: print every completed behaviour as JSON (for replay)
     Mutant,       \* "none", or the name of a deliberately wrong definition (negative self-tests)
-    MatChange     \* BOOLEAN: may K, C, M be replaced (by another element of Mats) between two steps?
+    MatChange,    \* BOOLEAN: may K, C, M be replaced (by another element of Mats) between two steps?
+    Refusals      \* set of INADMISSIBLE parameter records: a set-call with one of them is refused by the library (a step may follow it)
 
 VARIABLES u, v, a,   \* current state (2-vectors of Rat)
           mat,       \* the system [k, c, m]
@@ -118,6 +119,9 @@ Regular(p, mt, cs) ==   \* the step system is uniquely solvable
                     <<Sub(Res(p, mt, z, z, z, E1, 2), r0[2]), Sub(Res(p, mt, z, z, z, E2, 2), r0[2])>>>>
          IN ~IsZero(Det2(A))
 
+(* "no refused call before this step" - a record, so that the field has one type *)
+NoQ == [algo |-> "none", dt |-> Zero, al |-> Zero, be |-> Zero, ga |-> Zero]
+
 StepRec(p, mt, cs, F, g, su, sv, sa) ==
     LET x  == Unknown(p, mt, cs, F, g, su, sv, sa)
         n1 == New(p, DofState(su, sv, sa, 1), x[1])
@@ -130,7 +134,7 @@ StepRec(p, mt, cs, F, g, su, sv, sa) ==
          post |-> <<<<n1[1], n2[1]>>, <<n1[2], n2[2]>>, <<n1[3], n2[3]>>>>,
          evalv |-> <<<<e1[1], e2[1]>>, <<e1[2], e2[2]>>, <<e1[3], e2[3]>>>>,
          res |-> <<Res(p, mt, su, sv, sa, x, 1), Res(p, mt, su, sv, sa, x, 2)>>,
-         coefs |-> Coefs(p), matv |-> mt]
+         coefs |-> Coefs(p), matv |-> mt, refused |-> NoQ]
 
 ---------------------------------------------------------------------------
 Init ==
@@ -150,7 +154,30 @@ Step(p, F, g, mt) ==
     /\ mat' = mt
     /\ UNCHANGED cons
 
-Next == \E p \in AlgoPrms, F \in Loads, g \in Gs, mt \in (IF MatChange THEN Mats ELSE {mat}) : Step(p, F, g, mt)
+(* what the two setters accept (their assertions): a positive step; alpha in [0, 1/3] for hht_newmark, in [0, 1) for the other  *)
+(* second-order schemes                                                                                                          *)
+Admissible(p) ==
+    /\ Lt(Zero, p.dt)
+    /\ CASE p.algo = "hht_newmark" -> Leq(Zero, p.al) /\ Leq(p.al, R(1, 3))
+         [] p.algo = "parabolic"   -> TRUE
+         [] OTHER                  -> Leq(Zero, p.al) /\ Lt(p.al, One)
+
+(* A set-call with inadmissible parameters q is REFUSED (it raises) and a refused call changes nothing: the step that follows it *)
+(* WITHOUT a new set-call is a step of the scheme, parameters and step size that were in force before (those of the previous    *)
+(* step).  The mutant is the design in which the scheme is switched before the parameters are examined: the refused call leaves *)
+(* the NAME of q with the parameters of the previous call.                                                                     *)
+StepAfterRefusal(q, F, g) ==
+    /\ hist # <<>> /\ Len(hist) < MaxSteps
+    /\ LET p0 == hist[Len(hist)].p
+           p  == IF Mutant = "refused_switches" /\ q.algo # "parabolic" /\ p0.algo # "parabolic" THEN [p0 EXCEPT !.algo = q.algo] ELSE p0
+       IN  /\ Regular(p, mat, cons)
+           /\ LET r == StepRec(p, mat, cons, F, g, u, v, a) IN
+                 /\ u' = r.post[1] /\ v' = r.post[2] /\ a' = r.post[3]
+                 /\ hist' = Append(hist, [r EXCEPT !.refused = q])
+    /\ UNCHANGED <<mat, cons>>
+
+Next == \/ \E p \in AlgoPrms, F \in Loads, g \in Gs, mt \in (IF MatChange THEN Mats ELSE {mat}) : Step(p, F, g, mt)
+        \/ \E q \in Refusals, F \in Loads, g \in Gs : StepAfterRefusal(q, F, g)
 
 Spec == Init /\ [][Next]_vars
 
@@ -165,6 +192,10 @@ Motion == hist # <<>> => \A i \in Free(Last) : Last.res[i] = Last.F[i]
 (* constrained dof holds the prescribed value (the step unknown; a^n = 0 for euler_explicit) *)
 Prescribed == (hist # <<>> /\ Last.cons) =>
                  Last.x[2] = IF Last.p.algo = "euler_explicit" THEN Zero ELSE Last.g
+
+(* the lattices are what they claim to be, and a refused call changed nothing: the step after it is a step of the previous scheme *)
+LatticeAdmissible == (\A p \in AlgoPrms : Admissible(p)) /\ (\A q \in Refusals : ~Admissible(q))
+RefusedKeeps == (Len(hist) > 1 /\ Last.refused.algo # "none") => Last.p = hist[Len(hist) - 1].p
 
 (* documented update relations between old and new state *)
 UpdateRel ==
